@@ -315,6 +315,10 @@ where
                 });
             };
             *slot = value;
+            // An updated slot is live again, buffered or stored alike.
+            if !self.holes().is_empty() {
+                self.mut_holes().remove(&index);
+            }
             return Ok(());
         }
 
